@@ -443,8 +443,8 @@ func (w *World) tripDescriptor(tr *train) *gtfsrt.TripDescriptor {
 			d = gtfsrt.NyctTripDescriptor_SOUTH
 		}
 		n := &gtfsrt.NyctTripDescriptor{IsAssigned: pb(tr.assigned), Direction: &d}
-		if tr.assigned || w.t.Chance(1, 3) {
-			n.TrainId = ps(tr.trainID)
+		if (tr.assigned && !w.t.Chance(1, 10)) || w.t.Chance(1, 3) {
+			n.TrainId = ps(tr.trainID) // an assigned trip occasionally lacks its train id
 		}
 		proto.SetExtension(td, gtfsrt.E_NyctTripDescriptor, n)
 	}
